@@ -728,7 +728,7 @@ def parse_def(
     # add def code to code
     code.append(def_code)
 
-    return (search_idx+1, tuple(code))
+    return (index, tuple(code))
 
 
 def parse_if(
